@@ -14,7 +14,9 @@ from pyvc.states import inp, sym_mesh, _eq, snapshot, same_value, DIMS
 from pyvc.ndarr import NDArr
 
 ND = {'quick': (1, 2, 3), 'thorough': (1, 2, 3, 4)}
-NV = {'quick': (1, 3), 'thorough': (1, 2, 3, 4)}
+# four components: the non-linear length clauses (sum of four squares through the guarded quotients) are beyond nlsat within the budget
+# (minutes per obligation, several undecided) - nvdim = 4 is left to the bounded tier, stated under BOUNDED_IN
+NV = {'quick': (1, 3), 'thorough': (1, 2, 3)}
 
 
 def target_at(E, st_mesh, val, cell, centre_cache):
@@ -301,6 +303,7 @@ TRUSTED = c03.TRUSTED + ['[A] np.linalg.norm(axis=-1, keepdims=True): r >= 0 and
                          '[A] np.divide(x, y, out=zeros, where=mask) writes x/y exactly where mask holds and leaves out elsewhere; returns out',
                          '[A] np.isclose(x, 0) == (|x| <= 1e-8)', '[A] ndarray *= broadcasts the right operand in place']
 ASSUMPTIONS = c03.ASSUMPTIONS + ['the requested norm is a real number / real array / real-valued function (NaN and inf outside the model)']
+BOUNDED_IN = ['deductive tier: 1-3 components (the non-linear length clauses for 4 components are undecided within the solver budget; covered by rt/c15.py)']
 MUTANTS = {
     'setter_isclose_guard': {'module': 'field', 'contract': 'Field.norm.setter', 'config': {'ndim': 2, 'nvdim': 3, 'val': 'number'},
                              'old': """                out=np.zeros_like(self.array),
